@@ -209,17 +209,37 @@ def sw_cases(draw):
     nwords = draw(st.one_of(INT(0, 4), INT(0, 24)))
     hi = (1 << dw) - 1
     words = [draw(st.one_of(st.sampled_from([0, hi, 1, hi >> 1]), INT(0, hi))) for _ in range(nwords)]
-    return {"p": p, "dw": dw, "words": words}
+    # how the Parameters object is obtained, in which container the words are given, and what was done with the
+    # object before (nothing it offers may change what compute returns afterwards)
+    return {"p": p, "dw": dw, "words": words, "route": draw(INT(0, 2)), "container": draw(INT(0, 3)),
+            "before": [PICK(draw, ["residue", "algorithm", "create", "compute-other", "compute-same", "repr"])
+                       for _ in range(draw(INT(0, 2)))]}
 
 
 def sw_body(ctx, case):
     p, dw, words = case["p"], case["dw"], case["words"]
-    params = Parameters(algo_of(p), dw)
+    route = case.get("route", 0)
+    algo = algo_of(p)
+    params = Parameters(algo, dw) if route == 0 else algo(dw) if route == 1 else algo(data_width=dw)
+    if (params.data_width, params.algorithm.crc_width, params.algorithm.polynomial) != (dw, p["crc_width"], p["polynomial"]):
+        raise Mismatch("parameters-object", params=p, data_width=dw, route=route, actual=repr(params))
     exp = williams(p, words, dw)
-    act = params.compute(words)
+    for op in case.get("before", []):
+        if op == "residue": params.residue()
+        elif op == "algorithm": params.algorithm
+        elif op == "create": params.create()
+        elif op == "repr": repr(params)
+        elif op == "compute-same": params.compute(words)
+        else: params.compute([0, (1 << dw) - 1])
+    cont = case.get("container", 0)
+    data = (list(words) if cont == 0 else tuple(words) if cont == 1 else iter(words) if cont == 2 else
+            (bytes(words) if dw == 8 else (w for w in words)))
+    act = params.compute(data)
     if act != exp:
-        raise Mismatch("compute", params=p, data_width=dw, words=words, expected=exp, actual=act)
+        raise Mismatch("compute", params=p, data_width=dw, words=words, expected=exp, actual=act, route=route,
+                       before=case.get("before", []))
     keys = ["sw:refin%d-refout%d" % (p["reflect_input"], p["reflect_output"])]
+    if case.get("before"): keys.append("sw:object-used-before")
     if dw > p["crc_width"]: keys.append("sw:dw>crc")
     if dw < p["crc_width"]: keys.append("sw:dw<crc")
     if p["crc_width"] % dw and dw % p["crc_width"]: keys.append("sw:dw-coprime-ish")
@@ -388,7 +408,7 @@ def parts(tier):
 
 
 REQUIRED = ["cat:entry", "cat:check-repacked", "sw:refin0-refout0", "sw:refin0-refout1", "sw:refin1-refout0",
-            "sw:refin1-refout1", "sw:dw>crc", "sw:dw<crc", "sw:even-poly", "hw:restart_after_data", "hw:idle_gap",
+            "sw:refin1-refout1", "sw:dw>crc", "sw:dw<crc", "sw:even-poly", "sw:object-used-before", "hw:restart_after_data", "hw:idle_gap",
             "hw:start_with_valid", "hw:start_without_valid", "hw:back_to_back", "hw:processor-elaborated-before", "match:positive", "match:negative",
             "match:refin!=refout", "match:multi-word-trailer", "match:all-trailers-exhaustive"]
 
